@@ -206,5 +206,19 @@ int main(int argc, char** argv) {
     sb_rgb_color_t c = sb_light_player_get_color_at(&pl, 1000); printf("colour at 1 s: %d %d %d (expected 255 255 255)\n", c.red, c.green, c.blue);
     return c.red == 255 ? 0 : 1;
   }
+  if (which == 24) { /* D23: altitude Bezier 179, 2179, 3179, 3179 (deceleration to rest: really the quadratic 179 + 6000u - 3000u^2) keeps a
+                        cubic coefficient of -3.7e-4 of rounding noise after sb_poly_make_bezier; the closed-form cubic solver then overflows in
+                        binary32 (q^2 ~ 1e39), returns NaN roots, sb_poly_touches answers "no" for every altitude and the takeoff time of a
+                        trajectory that climbs 3 m is infinity */
+    float xs[4] = {179, 2179, 3179, 3179};
+    sb_poly_t p; sb_poly_make_bezier(&p, 1, xs, 4);
+    float r = -1; sb_bool_t t = sb_poly_touches(&p, 1904.3391f, &r);
+    printf("coefficients %g %g %g %g; touches(1904.34) = %d at u = %g (expected 1 at 0.348166)\n", p.coeffs[0], p.coeffs[1], p.coeffs[2], p.coeffs[3], t, r);
+    uint8_t tr[] = {1, 0,0, 0,0, 0xb3,0x00, 0,0,  0x20, 0x10,0x27, 0x83,0x08, 0x6b,0x0c, 0x6b,0x0c,  0x10, 0x88,0x13, 0x53,0x10};
+    sb_trajectory_t tj; sb_trajectory_init_from_buffer(&tj, heapcopy(tr, sizeof tr), sizeof tr);
+    float tt = sb_trajectory_propose_takeoff_time_sec(&tj, 1725.3391f, 1000, 1000000);
+    printf("takeoff time = %g (the altitude is reached at 3.48 s)\n", tt);
+    return (t && isfinite(tt)) ? 0 : 1;
+  }
   return 0;
 }
